@@ -16,6 +16,7 @@ import Driver.Skeleton
 import Driver.Fold
 import Driver.BulkNames
 import Driver.CondHeaders
+import Driver.CacheFolder
 open Lean
 
 def dispatch (j : Json) : Json :=
@@ -35,6 +36,7 @@ def dispatch (j : Json) : Json :=
   | "prefilter" => Driver.handlePrefilter j
   | "bulknames" => Driver.handleBulkNames j
   | "condheaders" => Driver.handleCondHeaders j
+  | "cachefolder" => Driver.handleCacheFolder j
   | "ping" => Driver.obj [("r", Json.str "pong")]
   | _ => Driver.obj [("error", Json.str "bad-model")]
 
